@@ -497,15 +497,15 @@ def c09(ctx):
 def c11(ctx):
     RM.rule_pure(ctx)
     RM.rule_uwidth(ctx)
-    RM.rule_blocks(ctx)
     RM.rule_dfg(ctx)
-    ctx.floor("dfg", 8 + 16 + 1 - 4)
+    ctx.floor("dfg", 16 + 8 + 1)
     ctx.floor("pure", 20)
     ctx.floor("uwidth", 12)
-    ctx.floor("blocksize", 10)
-    ctx.floor("blockloop", 2)
-    ctx.floor("bytes-once", 12)
-    ctx.undecided_clauses.append("mixing constants, rotation amounts, operation order: equality with the published algorithms on all inputs is not decided by these rules")
+    # the structural block rules (block size / block loop / every tail byte once) are implied by the term equality of rule dfg; they
+    # are consulted only where dfg could not compute a term, as a weaker necessary condition that still reports a specific construct
+    if any(o.rule == "dfg" and o.status == "undecided" for o in ctx.obs):
+        RM.rule_blocks(ctx)
+        ctx.note("dfg left cases undecided: structural block rules consulted")
 
 
 # ---------------------------------------------------------------------------
